@@ -33,9 +33,14 @@ PROPS = {
         'families': [{'name': 'verify', 'shards': {'quick': 4, 'thorough': 16}, 'seeds': {'quick': 1, 'thorough': 2}},
                      {'name': 'verifyexh', 'shards': {'quick': 8, 'thorough': 16}}],
         'kinds': ['verify', 'sound'],
-        'lean_modules': ['UtreexoVerif.Props.C03'],
+        'lean_modules': ['UtreexoVerif.Props.C03', 'UtreexoVerif.Props.C03b'],
         'theorems': ['UtreexoVerif.Props.C03.verify_sound', 'UtreexoVerif.Props.C03.pollardVerify_sound',
-                     'UtreexoVerif.Props.C03.mapVerify_sound', 'UtreexoVerif.Proofs.CalcSound.calc_sound'],
+                     'UtreexoVerif.Props.C03.mapVerify_sound', 'UtreexoVerif.Proofs.CalcSound.calc_sound'] +
+                    ['UtreexoVerif.Props.C03b.' + t for t in ['verify_sound_spec_full', 'pollardVerify_sound_spec_full',
+                     'mapVerify_sound_spec_full', 'verify_sound_spec', 'pollardVerify_sound_spec', 'mapVerify_sound_spec',
+                     'verify_sound_spec_at']] +
+                    ['UtreexoVerif.Proofs.SpecView.specView', 'UtreexoVerif.Proofs.SpecNodes.LeafOK.necessary',
+                     'UtreexoVerif.Proofs.SpecNodes.nodes_functional', 'UtreexoVerif.Proofs.SpecNodes.nodeAt_children'],
         'rule': 'adversarial (hashes, targets, proof) triples against reachable states: exhaustive over a small alphabet for forests <= 4 (quick) / 6 (thorough) leaves, structured mutation of honest proofs for larger ones; every verifier result compared with the Lean model of calculateHashes/Verify; every accepted input checked against the specification forest (soundness oracle); non-trivial = accepted',
         'trusted': COMMON_TRUST,
         'assumptions': ['collision-freeness of SHA-512/256 (hypothesis CR of the theorems)'],
@@ -44,8 +49,12 @@ PROPS = {
         'families': [{'name': 'verify', 'shards': {'quick': 4, 'thorough': 16}, 'seeds': {'quick': 1, 'thorough': 2}},
                      {'name': 'verifyexh', 'shards': {'quick': 8, 'thorough': 16}}],
         'kinds': ['verify', 'stumpupdate'],
-        'lean_modules': [],
-        'theorems': [],
+        'lean_modules': ['UtreexoVerif.Props.C04'],
+        'theorems': ['UtreexoVerif.Props.C04.' + t for t in ['update_reject_atomic', 'rowFacts', 'calc_total', 'verify_total',
+                     'pollardVerify_total', 'mapVerify_total', 'update_total', 'calc_total_uncond', 'verify_total_uncond',
+                     'pollardVerify_total_uncond', 'mapVerify_total_uncond', 'update_total_uncond']] +
+                    ['UtreexoVerif.Proofs.CalcTotal.calcStep_decr', 'UtreexoVerif.Proofs.CalcTotal.calcLoop_total',
+                     'UtreexoVerif.Proofs.CalcTotal.rowCursor_total', 'UtreexoVerif.Proofs.StumpTotal.add_total'],
         'rule': 'same adversarial inputs as C03 (targets up to 2^64-1, duplicates, mismatched lengths, empty and oversized proofs); every call runs under recover and a watchdog; outcomes ok/err/panic/hang compared with the model; the stump left behind by a rejected Update compared with the model (unchanged)',
         'trusted': COMMON_TRUST,
         'assumptions': [],
@@ -101,6 +110,26 @@ PROPS = {
         'lean_modules': [],
         'theorems': [],
         'rule': 'undo to depth 1..history length and redo on another branch; after every undo roots, leaf count, position of every leaf ever added, every position read and proofs of live subsets compared with the specification forest at the earlier height',
+        'trusted': COMMON_TRUST,
+        'assumptions': [],
+    },
+    'C07': {
+        'families': [{'name': 'cached', 'shards': {'quick': 8, 'thorough': 16}, 'seeds': {'quick': 1, 'thorough': 2}},
+                     {'name': 'cachedexh', 'shards': {'quick': 8, 'thorough': 16}}],
+        'kinds': ['cupdate'],
+        'lean_modules': [],
+        'theorems': [],
+        'rule': 'a light client (stump + cached proof + hashes) updated with Proof.Update from block data alone, every remember subset for small blocks and random subsets beyond; after every block what it holds is compared with the canonical proof (Spec.Forest.canon) of (previous leaves - deleted + remembered additions): same (leaf, position) pairs, identical proof hashes, and Verify accepts it',
+        'trusted': COMMON_TRUST,
+        'assumptions': ['after a deviating Proof.Undo (listed known findings of C08) the harness re-synchronises the client with the canonical proof so that later updates are judged on their own'],
+    },
+    'C08': {
+        'families': [{'name': 'cached', 'shards': {'quick': 8, 'thorough': 16}, 'seeds': {'quick': 1, 'thorough': 2}},
+                     {'name': 'cachedexh', 'shards': {'quick': 8, 'thorough': 16}}],
+        'kinds': ['cundo'],
+        'lean_modules': [],
+        'theorems': [],
+        'rule': 'after Proof.Undo of the newest block (depth 1..history length, followed by further blocks) what the client holds is compared with the canonical proof at the previous state of (its leaves - the additions of the undone block): no added or invented leaf, no lost leaf, canonical proof hashes, Verify accepts against the previous stump',
         'trusted': COMMON_TRUST,
         'assumptions': [],
     },
